@@ -5,7 +5,9 @@ package main
 // Every case is one input text together with the layout the generator had in mind: lexemes (text + the
 // tokens they denote) alternating with separator runs.  Observed on the implementation: the token stream
 // (type, image, line) through the hook verif_hooks_tokens.go.  Compared in Coq (Run/C15Run.v):
-//   c15_im  model tokenize = observed stream,
+//   c15_im  model tokenize = observed stream; and the position-carrying parser model (Syn/ParsePos.v) on the observed
+//           tokens = outcome kind of Parser.Parse and, for an error, the line stored in it (every layout case and
+//           every case of the malformed stream, value configuration),
 //   c15_is  observed stream = the tokens the layout denotes, each on line 1 + number of LF before it.
 // Independent oracle in Go: a layout variant and the canonical layout (ASCII spellings, explicit '*',
 // single blanks) give the same token list and - for the value parser - the same AST; string literals
@@ -105,7 +107,7 @@ func anyIdent(name string) (parser2.Identifier[value.Value], bool) {
 func (c *tokCfg) parse(text string) (ast string, line int, err error) {
 	defer func() {
 		if r := recover(); r != nil {
-			err = fmt.Errorf("panic: %v", r)
+			err = parsePanic{r}
 		}
 	}()
 	a, e := c.parser.Parse(text, anyIdent)
@@ -113,6 +115,67 @@ func (c *tokCfg) parse(text string) (ast string, line int, err error) {
 		return "", parser2.VerifLine(e), e
 	}
 	return a.String(), 0, nil
+}
+
+// parsePanic is the error parse returns when Parser.Parse panicked
+type parsePanic struct{ v any }
+
+func (p parsePanic) Error() string { return fmt.Sprintf("panic: %v", p.v) }
+
+// parObs observes Parser.Parse on the input for the comparison with the position-carrying parser model
+// (Run/C15Run.v par15_model): the Coq term of type c15_par - outcome kind (0 AST, 1 error, 2 panic, 3 not observed),
+// the line stored in the error + 1 (VerifLine reads errorWithLine.line; -1 = built from TokenEof -> 0),
+// the number images of the input the number parser rejects, the parser tables.
+func (c *tokCfg) parObs(input string, obs []obsTok, sum *Summary) string {
+	if c.parser == nil || len(obs) > 400 {
+		sum.Count("parser_model_compared", "not compared (no parser / long input)")
+		return "no_parse"
+	}
+	_, line, err := c.parse(input)
+	pk, ln := 0, 0
+	switch e := err.(type) {
+	case nil:
+		sum.Count("parser_model_compared", "AST")
+	case parsePanic:
+		_ = e
+		pk = 2
+		sum.Count("parser_model_compared", "panic")
+	default:
+		pk, ln = 1, line+1
+		if line < 0 {
+			sum.Count("parser_model_compared", "error built from TokenEof (no line)")
+		} else if line > 1 {
+			sum.Count("parser_model_compared", "error with a line > 1")
+		} else {
+			sum.Count("parser_model_compared", "error with line 1")
+		}
+	}
+	var bad []string
+	seen := map[string]bool{}
+	for _, t := range obs {
+		if t.Typ == tNumber && !seen[t.Img] {
+			seen[t.Img] = true
+			if _, _, e := c.parse(t.Img); e != nil {
+				bad = append(bad, CoqStr(t.Img))
+			}
+		}
+	}
+	return fmt.Sprintf("(%d, %d, %s, p_value)", pk, ln, CoqList(bad))
+}
+
+// coqParTables: the tables of the value parser the parser model needs (written once per case file)
+func coqParTables() string {
+	p := getCfg("value", false, false)
+	ops, unary, _, _ := p.parser.VerifParseConfig()
+	co := func(l []string) string {
+		items := make([]string, len(l))
+		for i, o := range l {
+			items[i] = CoqStr(o)
+		}
+		return CoqList(items)
+	}
+	_, _, e := p.parse("\"s\"")
+	return fmt.Sprintf("Definition p_value : c15_ptab := (%s, %s, %s).\n", co(ops), co(unary), CoqBool(e == nil))
 }
 
 func decodeRunes(s string) []rune {
@@ -1081,7 +1144,7 @@ func (x *c15run) runLayout(cs C15Case, source string) {
 	for i, it := range cs.Items {
 		its[i] = it.coq()
 	}
-	x.cw.Add(fmt.Sprintf("(%d, %s, %s, [], %s)", id, cfg.coq(input), CoqList(its), coqObs(obs)))
+	x.cw.Add(fmt.Sprintf("(%d, %s, %s, [], %s, %s)", id, cfg.coq(input), CoqList(its), coqObs(obs), cfg.parObs(input, obs, sum)))
 }
 
 // runRaw: malformed stream - only model = implementation and termination
@@ -1114,7 +1177,7 @@ func (x *c15run) runRaw(cs C15Case, source string) {
 		}
 	}
 	x.sum.Count("raw_invalid_tokens", bucket(invalid))
-	x.cw.Add(fmt.Sprintf("(%d, %s, [], %s, %s)", id, cfg.coq(input), CoqRunes(decodeRunes(input)), coqObs(obs)))
+	x.cw.Add(fmt.Sprintf("(%d, %s, [], %s, %s, %s)", id, cfg.coq(input), CoqRunes(decodeRunes(input)), coqObs(obs), cfg.parObs(input, obs, x.sum)))
 }
 
 func rawCase(cfg *tokCfg, s string) C15Case {
@@ -1734,7 +1797,7 @@ func cmdC15(seed int64, tier, outDir string) {
 	sum := NewSummary("C15", seed, tier)
 	sum.Rule = "layouts = lexeme lists of generated programs (value.New() grammar and a custom operator/text-operator table) x separator runs of up to 3 separators (none where the lexical rule allows, blank, tab, CR, LF, // and /* */ comments tight or set off, bodies with quotes, stars, slashes, LF; comment at end of input) x {comments on/off, comfort on/off}; string literals and quoted identifiers from the stratified Unicode generator; all comfort juxtaposition patterns; malformed stream (random bytes, token soup, mutated programs, unterminated literals/comments, NUL, invalid UTF-8). Non-trivial = a token boundary; distinct by (left token class, separator shape, right token class, comments, comfort) and by (literal kind, special rune classes)"
 	cw := NewCaseWriter(outDir, "From P2 Require Import Base.Prelude Lex.Token Lex.Tok Run.C15Run.", "c15_case", "c15_id", "c15_im", "c15_is", 300)
-	cw.prelude = getCfg("value", false, false).coqTables() + getCfg("custom", false, false).coqTables()
+	cw.prelude = getCfg("value", false, false).coqTables() + getCfg("custom", false, false).coqTables() + coqParTables()
 	log.SetOutput(io.Discard) // the parser logs recovered optimizer panics (1/0 ...)
 	x := &c15run{sum: sum, cw: cw}
 	finish := func() {
